@@ -4302,3 +4302,126 @@ def c06_new_pop_exec(q):
                 out.append(prove_eq('%s.entry%s' % (oid, '_'.join(map(str, i + (j,)))), pc, _nd_get(res, i + (j,)), want, fn, finding_key='C06/new-pop-exec/%s' % q))
         return out
     return go()
+
+
+def c18_part_inbreeding():
+    """LowPass.part_inbreeding_probability(parts, F) for 0 < F < 1 (BetaBinomln uninterpreted): partition i with genotype counts (n00, n01, n11) of n
+    individuals has weight   n!/(n00! n01! n11!) * p00^n00 p01^n01 p11^n11,   p_g = exp(BetaBinomln(g, 2, alpha, beta)),
+    alpha = p (1-F)/F, beta = (1-p)(1-F)/F, p = (2 n11 + n01)/(2n)  (weight 1 for the monomorphic partitions); the result is the weights normalised
+    to sum to one.  The multinomial coefficient counts the orderings of the individuals and must be there."""
+    oid = 'C18/LowPass.py:part_inbreeding_probability'
+    fn = 'dadi/LowPass/LowPass.py::part_inbreeding_probability'
+
+    @guarded(oid, fn)
+    def go():
+        import math
+        out = []
+        Fx = z3.Real('F')
+        hy = [Fx > 0, Fx < 1]
+        BB = uf('BetaBinomln', 4)
+        exp = uf('exp')
+        for name, parts in (('n2.k2', [[0, 2], [1, 1]]), ('n3.k3', [[0, 1, 2], [1, 1, 1]]), ('n3.k2', [[0, 0, 2], [0, 1, 1]]), ('n2.k0', [[0, 0]])):
+            def pol(fr):
+                if fr.qualname == 'BetaBinomln':
+                    return lambda ex_, f_, a, kw: BB(*[to_real(exact(x)) for x in a])
+                return 'inline' if fr.qualname == 'part_inbreeding_probability' else 'abstract'
+            ex = Executor(policy=pol)
+            f = ex.func('dadi/LowPass/LowPass.py', 'part_inbreeding_probability')
+            paths = ex.run(f, [VList([VList(list(p_)) for p_ in parts]), Fx], {}, base_pc=hy)
+            tag = '%s.%s' % (oid, name)
+            if len(paths) != 1 or paths[0].outcome != 'return':
+                out.append(struct(tag, False, 'expected one returning path: %r' % paths[:2], fn, undecided=True))
+                continue
+            res = ex.iterate(paths[0].value)
+            ws = []
+            for p_ in parts:
+                n = len(p_)
+                n00, n01, n11 = p_.count(0), p_.count(1), p_.count(2)
+                if sum(p_) == 0 or sum(p_) == 2 * n:
+                    ws.append(z3.RealVal(1))
+                    continue
+                pf = z3.Q(2 * n11 + n01, 2 * n)
+                al, be = pf * ((1 - Fx) / Fx), (1 - pf) * ((1 - Fx) / Fx)
+                pg = [exp(BB(z3.RealVal(g), z3.RealVal(2), al, be)) for g in range(3)]
+                coef = math.factorial(n) // (math.factorial(n00) * math.factorial(n01) * math.factorial(n11))
+                ws.append(coef * _pw(pg[0], n00) * _pw(pg[1], n01) * _pw(pg[2], n11))
+            tot = sum(ws, z3.RealVal(0))
+            out.append(struct(tag + '.length', len(res) == len(parts), 'one probability per partition', fn))
+            for i in range(min(len(res), len(parts))):
+                out.append(prove_eq('%s.partition%d' % (tag, i), hy + list(paths[0].pc) + [tot != 0], res[i], ws[i] / tot, fn))
+        return out
+    return go()
+
+
+def c17_vourlaki_mixture():
+    """Vourlaki2022.Vourlaki_mixture(params, ns, s1, s2, theta, pts) as a linear combination of cached quantities (coefficients compared exactly):
+         theta * [ (1-w)(1-c) m5 + (1-w) c (1-cp) m6 + w ((1-c) + c cp) S[g+,g+]
+                   + (1-w) c cp ( trapz_g pdf(-g) S[g, g+] + S[g_0, g+] W_del + S[g_-1, g+] W_neu )           (pop 1 negative, pop 2 positive)
+                   + w c (1-cp) ( trapz_g pdf(-g) S[g+, g] + S[g+, g_0] W_del + S[g+, g_-1] W_neu ) ]         (pop 1 positive, pop 2 negative)
+       with w = ppos_wild, c = pchange, cp = pchange_pos, m5 = s1.integrate([alpha,beta], gamma pdf, theta 1), m6 = s2.integrate(..., biv_ind_gamma,
+       exterior_int=True), W_del = int_{-g_0}^{inf} gamma pdf, W_neu = int_0^{-g_-1} gamma pdf: each tail weight goes with ITS OWN block of spectra."""
+    oid = 'C17/Vourlaki2022.py:Vourlaki_mixture'
+    fn = 'dadi/DFE/Vourlaki2022.py::Vourlaki_mixture'
+
+    @guarded(oid, fn)
+    def go():
+        quads = {}
+
+        def ah(ex_, fref, a, kw, ctx):
+            nm = vrepr(fref)
+            if 'quad' in nm:
+                W = z3.Real('W%d' % len(quads))
+                quads[W.decl().name()] = (vrepr(a[0]), vrepr(a[1]), vrepr(a[2]), vrepr(kw.get('args')))
+                t = Tm('quadres')
+                t.attrs['__items__'] = [W, Tm('err')]
+                t.attrs['__len__'] = 2
+                return t
+            return NotImplemented
+        ex = Executor()
+        ex.abstract_hook = ah
+        f = ex.func('dadi/DFE/Vourlaki2022.py', 'Vourlaki_mixture')
+        al, be, w, gp, c, cp = [z3.Real(n_) for n_ in 'alpha beta ppos_wild gamma_pos pchange pchange_pos'.split()]
+        s1, s2 = Tm('s1'), Tm('s2')
+        g = reals('g', 2)
+        s2.attrs['neg_gammas'] = VList(list(g), 'ndarray')
+        theta = z3.Real('theta')
+        paths = ex.run(f, [(al, be, w, gp, c, cp), None, s1, s2, theta, None], {})
+        rets = [p for p in paths if p.outcome == 'return']
+        if len(rets) != 1:
+            return [struct(oid, False, 'expected one returning path: %r' % paths[:3], fn, undecided=True)]
+        lf = linear_form(rets[0].value)
+        pc = list(rets[0].pc)
+        out = []
+        EQ = 'cmp:Eq(attr:gammas(s2), gamma_pos)'
+        NP = 'call:lib:numpy.squeeze(getitem(attr:spectra(s2), (slice(None, 2, None), %s)))' % EQ      # pop 1 negative, pop 2 positive
+        PN = 'call:lib:numpy.squeeze(getitem(attr:spectra(s2), (%s, slice(None, 2, None))))' % EQ      # pop 1 positive, pop 2 negative
+        wdel = [n_ for n_, q in quads.items() if 'PDFs.gamma' in q[0] and q[1] == vrepr(-g[0]) and q[2] == 'float:inf' and q[3] == '[alpha, beta]']
+        wneu = [n_ for n_, q in quads.items() if 'PDFs.gamma' in q[0] and q[1] == '0' and q[2] == vrepr(-g[1]) and q[3] == '[alpha, beta]']
+        out.append(struct(oid + '.tail-integrals', len(wdel) == 1 and len(wneu) == 1 and len(quads) == 2, 'W_del = quad(gamma pdf, -g_0, inf), W_neu = quad(gamma pdf, 0, -g_-1), args [alpha, beta]: %s' % quads, fn))
+        if len(wdel) != 1 or len(wneu) != 1:
+            return out
+        Wd, Wn = z3.Real(wdel[0]), z3.Real(wneu[0])
+        A7, A4 = theta * (1 - w) * c * cp, theta * w * c * (1 - cp)
+        roles = [
+            ('m5', lambda k: k.startswith('call:attr:integrate(s1)([alpha, beta], None, <func dadi.DFE.PDFs.gamma>, 1, None'), theta * (1 - w) * (1 - c)),
+            ('m6', lambda k: k.startswith('call:attr:integrate(s2)([alpha, beta], None, <func dadi.DFE.PDFs.biv_ind_gamma>, 1, None') and "('kw', 'exterior_int', True)" in k, theta * (1 - w) * c * (1 - cp)),
+            ('both-positive', lambda k: k == 'getitem(getitem(attr:spectra(s2), (%s, %s)), 0)' % (EQ, EQ), theta * w * ((1 - c) + c * cp)),
+            ('neg-pos.trapz', lambda k: k.startswith('call:lib:numpy.trapz(op:Mult(') and NP in k and PN not in k and 'PDFs.gamma([-1*g0, -1*g1], [alpha, beta])' in k, A7),
+            ('neg-pos.deleterious-tail', lambda k: k == 'getitem(%s, 0)' % NP, A7 * Wd),
+            ('neg-pos.neutral-tail', lambda k: k == 'getitem(%s, -1)' % NP, A7 * Wn),
+            ('pos-neg.trapz', lambda k: k.startswith('call:lib:numpy.trapz(op:Mult(') and PN in k and NP not in k and 'PDFs.gamma([-1*g0, -1*g1], [alpha, beta])' in k, A4),
+            ('pos-neg.deleterious-tail', lambda k: k == 'getitem(%s, 0)' % PN, A4 * Wd),
+            ('pos-neg.neutral-tail', lambda k: k == 'getitem(%s, -1)' % PN, A4 * Wn),
+        ]
+        used = set()
+        for name, pred, want in roles:
+            ks = [k for k in lf if pred(k)]
+            if len(ks) != 1:
+                out.append(struct('%s.%s' % (oid, name), False, 'expected exactly one term of this kind, found %d: %s' % (len(ks), [k[:120] for k in ks]), fn))
+                continue
+            used.add(ks[0])
+            out.append(prove_eq('%s.%s' % (oid, name), pc, lf[ks[0]][1], want, fn))
+        extra = [k for k in lf if k not in used]
+        out.append(struct(oid + '.no-other-terms', not extra, 'no further terms' if not extra else 'unexpected terms: %s' % [k[:120] for k in extra], fn))
+        return out
+    return go()
